@@ -4,8 +4,11 @@ package main
 
 import (
 	"fmt"
+	"os"
+
 	"go/constant"
 	"go/types"
+	"golang.org/x/tools/go/ssa"
 	"math/big"
 	"strconv"
 	"strings"
@@ -76,6 +79,11 @@ func (e *SpecEnv) term(v Val) *Term {
 	switch x := v.(type) {
 	case TV:
 		return x.T
+	case MapV:
+		if t := e.mem[x.Cell]; t != nil {
+			return t
+		}
+		e.fail("map not in memory")
 	case PtrV:
 		// pointer used as a value: its current pointee
 		return e.loadPtr(x)
@@ -129,6 +137,8 @@ func (e *SpecEnv) typeOf(v Val) types.Type {
 		return types.NewPointer(x.Elem)
 	case SliceV:
 		return x.Typ
+	case MapV:
+		return x.Typ
 	}
 	return nil
 }
@@ -148,6 +158,8 @@ func (e *SpecEnv) deref(v Val) (*Term, types.Type) {
 		}
 		return x.T, x.Typ
 	case SliceV:
+		return e.term(x), x.Typ
+	case MapV:
 		return e.term(x), x.Typ
 	}
 	e.fail("cannot dereference %T", v)
@@ -413,9 +425,16 @@ func (e *SpecEnv) binary(x *SExpr) Val {
 	case "&&":
 		a := e.term(e.eval(x.Args[0]))
 		if a.IsFalse() {
+			if os.Getenv("GOVC_SPLIT") != "" {
+				fmt.Fprintf(os.Stderr, "CONJUNCT-FALSE: %s\n", sexprString(x.Args[0]))
+			}
 			return boolV(TFalse)
 		}
-		return boolV(And(a, e.term(e.eval(x.Args[1]))))
+		b := e.term(e.eval(x.Args[1]))
+		if b.IsFalse() && os.Getenv("GOVC_SPLIT") != "" {
+			fmt.Fprintf(os.Stderr, "CONJUNCT-FALSE: %s\n", sexprString(x.Args[1]))
+		}
+		return boolV(And(a, b))
 	case "||":
 		a := e.term(e.eval(x.Args[0]))
 		if a.IsTrue() {
@@ -506,8 +525,7 @@ func (e *SpecEnv) nilCompare(v Val, t *Term) (*Term, *Term) {
 		return t, PtrNil(t.Sort)
 	}
 	if t.Sort.Kind == KDT && strings.HasPrefix(t.Sort.Name, "Slice<") {
-		// nil slice: modelled as length 0 (nil and empty are not distinguished)
-		return SliceLen(t), IntC(0)
+		return Ite(SliceIsNil(t), IntC(0), IntC(1)), IntC(0)
 	}
 	if _, ok := v.(PtrV); ok {
 		return IntC(1), IntC(0) // cell pointers are never nil
@@ -533,6 +551,31 @@ func (e *SpecEnv) call(x *SExpr) Val {
 				pkgQual, name = fn.Args[0].S, fn.S
 			}
 		}
+	}
+	if pkgQual == "" && (name == "isa" || name == "asa") && len(args) == 2 {
+		v := e.eval(args[0])
+		t := e.term(v)
+		ucs := unionCases[t.Sort]
+		if ucs == nil {
+			e.fail("%s: not a sealed interface value", name)
+		}
+		tname := ""
+		switch args[1].Op {
+		case "id":
+			tname = args[1].S
+		case "sel":
+			tname = args[1].S
+		}
+		for i := range ucs {
+			nt, _ := ucs[i].Elem.(*types.Named)
+			if nt != nil && nt.Obj().Name() == tname {
+				if name == "isa" {
+					return boolV(IsCtor(ucs[i].Ctor, t))
+				}
+				return TV{Typed(SelField(ucs[i].Ctor, 0, t), ucs[i].Elem), ucs[i].Elem}
+			}
+		}
+		e.fail("%s: %s is not an implementer", name, tname)
 	}
 	if pkgQual == "" {
 		switch name {
@@ -641,7 +684,9 @@ func (e *SpecEnv) call(x *SExpr) Val {
 					ts = append(ts, e.term(e.eval(a)))
 				}
 				r := e.ex.abstractApp(key, ts)
-				e.ex.instantiateAbstract(key, c, ts, r)
+				if e.depth == 0 {
+					e.ex.instantiateAbstract(key, c, ts, r)
+				}
 				return r
 			}
 		}
@@ -678,7 +723,9 @@ func (e *SpecEnv) call(x *SExpr) Val {
 							ts = append(ts, e.term(e.eval(a)))
 						}
 						r := e.ex.abstractApp(key, ts)
-						e.ex.instantiateAbstract(key, c, ts, r)
+						if e.depth == 0 {
+							e.ex.instantiateAbstract(key, c, ts, r)
+						}
 						return r
 					}
 				}
@@ -693,8 +740,99 @@ func (e *SpecEnv) call(x *SExpr) Val {
 			}
 		}
 	}
+	// pure call of a Go function/method of the module: evaluated by the symbolic executor
+	if r, ok := e.pureCall(fn, args, pkgQual, name); ok {
+		return r
+	}
 	e.fail("unknown function in specification: %s", x.Args[0].S)
 	return nil
+}
+
+// pureCall evaluates a call to a (side-effect free) Go function of the module inside a
+// specification by executing its body symbolically; obligations raised inside are dropped
+// (the function's own contract check covers them), assumptions about callee results are kept.
+func (e *SpecEnv) pureCall(fn *SExpr, args []*SExpr, pkgQual, name string) (Val, bool) {
+	ex := e.ex
+	var f *ssa.Function
+	var vals []Val
+	if fn.Op == "sel" && pkgQual == "" {
+		recv := e.eval(fn.Args[0])
+		rt := e.typeOf(recv)
+		if rt == nil {
+			return nil, false
+		}
+		bt := rt
+		if p, ok := bt.Underlying().(*types.Pointer); ok {
+			bt = p.Elem()
+		}
+		nt, ok := bt.(*types.Named)
+		if !ok {
+			return nil, false
+		}
+		pp := nt.Obj().Pkg().Path()
+		if f = ex.P.Funcs["("+pp+"."+nt.Obj().Name()+")."+fn.S]; f != nil {
+			t, _ := e.deref(recv)
+			if tv, ok := recv.(TV); ok {
+				if _, isP := rt.Underlying().(*types.Pointer); !isP {
+					t = tv.T
+				}
+			}
+			vals = append(vals, TV{t, bt})
+		} else if f = ex.P.Funcs["(*"+pp+"."+nt.Obj().Name()+")."+fn.S]; f != nil {
+			t, _ := e.deref(recv)
+			vals = append(vals, ValPtr{Root: t, Elem: bt})
+		}
+	} else if name != "" {
+		pkgPath := e.pkgPath
+		if pkgQual != "" {
+			if pk := ex.P.findPkgByName(e.pkgPath, pkgQual); pk != nil {
+				pkgPath = pk.PkgPath
+			}
+		}
+		f = ex.P.Funcs[pkgPath+"."+name]
+	}
+	if f == nil || f.Blocks == nil || f.Pkg == nil || !strings.HasPrefix(f.Pkg.Pkg.Path(), modPath) {
+		return nil, false
+	}
+	for _, a := range args {
+		vals = append(vals, e.eval(a))
+	}
+	if len(vals) != len(f.Params) || ex.depth > 6 {
+		return nil, false
+	}
+	nObl := len(ex.Obls)
+	sub := &Frame{ex: ex, fn: f, con: ex.P.Store.Funcs[f.String()], prefix: "spec-call/"}
+	ex.depth++
+	savedMay := ex.MayPanic
+	ex.MayPanic = true
+	sub.run(vals, nil, e.mem.clone(), TTrue)
+	ex.MayPanic = savedMay
+	ex.depth--
+	ex.Obls = ex.Obls[:nObl]
+	if len(sub.rets) == 0 {
+		return nil, false
+	}
+	var gs []*Term
+	for _, r := range sub.rets {
+		gs = append(gs, r.guard)
+	}
+	n := f.Signature.Results().Len()
+	if n == 1 {
+		var vs []Val
+		for _, r := range sub.rets {
+			vs = append(vs, r.vals[0])
+		}
+		return mergeVals(gs, vs), true
+	}
+	tup := make(TupleV, n)
+	for i := 0; i < n; i++ {
+		var vs []Val
+		for _, r := range sub.rets {
+			vs = append(vs, r.vals[i])
+		}
+		tup[i] = mergeVals(gs, vs)
+	}
+	return tup, true
 }
 
 func (e *SpecEnv) applySpec(sf *SpecFunc, args []Val) Val {
@@ -828,4 +966,31 @@ func (ex *Exec) instantiateAbstract(key string, con *Contract, args []*Term, res
 		}
 		ex.Assumes = append(ex.Assumes, Implies(And(pre...), t))
 	}
+}
+
+func sexprString(x *SExpr) string {
+	if x == nil {
+		return ""
+	}
+	switch x.Op {
+	case "num":
+		return x.N.String()
+	case "id", "str":
+		return x.S
+	case "sel":
+		return sexprString(x.Args[0]) + "." + x.S
+	case "call":
+		var as []string
+		for _, a := range x.Args[1:] {
+			as = append(as, sexprString(a))
+		}
+		return sexprString(x.Args[0]) + "(" + strings.Join(as, ", ") + ")"
+	case "idx":
+		return sexprString(x.Args[0]) + "[" + sexprString(x.Args[1]) + "]"
+	case "bin":
+		return "(" + sexprString(x.Args[0]) + " " + x.S + " " + sexprString(x.Args[1]) + ")"
+	case "un":
+		return x.S + sexprString(x.Args[0])
+	}
+	return x.Op
 }
